@@ -3,6 +3,10 @@ Error-handling utility code.
 """
 
 from inspect import getmro
+from contextvars import ContextVar
+
+# True while the traceback of a failed extractor is being logged:
+_LOGGING_EXTRACTOR_FAILURE = ContextVar("eliot.extractor_failure", default=False)
 
 
 class ErrorExtraction(object):
@@ -37,6 +41,11 @@ class ErrorExtraction(object):
 
         @return: Dictionary with fields to include.
         """
+        if _LOGGING_EXTRACTOR_FAILURE.get():
+            # Don't run extractors on the exception raised by a broken
+            # extractor: if it is registered for a base class of its own
+            # exception that would recurse without bound.
+            return {}
         for klass in getmro(exception.__class__):
             if klass in self.registry:
                 extractor = self.registry[klass]
@@ -45,7 +54,11 @@ class ErrorExtraction(object):
                 except:
                     from ._traceback import write_traceback
 
-                    write_traceback(logger)
+                    token = _LOGGING_EXTRACTOR_FAILURE.set(True)
+                    try:
+                        write_traceback(logger)
+                    finally:
+                        _LOGGING_EXTRACTOR_FAILURE.reset(token)
                     return {}
         return {}
 
